@@ -5,11 +5,16 @@ with the property text, the 'hard to notice' direction and the list of ideas alr
 import json, glob, os, subprocess, sys
 ri, pid = sys.argv[1], sys.argv[2]
 props = {json.loads(l)['id']: json.loads(l) for l in open('/verif/properties.jsonl')}
-p = props[pid]
-text = "%s — %s\n\n%s\n\nQuantified: %s" % (pid, p['title'], p['statement'], p['quantifier']['text'])
-used = []
-for d in sorted(glob.glob('/verif/seeded/%s-*' % pid)):
-    used.append(json.load(open(d + '/meta.json')).get('summary', '')[:260])
+pids = pid.split(',')
+texts, used = [], []
+for q in pids:
+    p = props[q]
+    texts.append("%s — %s\n\n%s\n\nQuantified: %s" % (q, p['title'], p['statement'], p['quantifier']['text']))
+    for d in sorted(glob.glob('/verif/seeded/%s-*' % q)):
+        used.append(q + ': ' + json.load(open(d + '/meta.json')).get('summary', '')[:200])
+text = "\n\n-----\n".join(texts)
+if len(pids) > 1:
+    text = "(You may choose ONE of the following properties; pick the one for which you can find the most subtle, hardest-to-notice breaking change, and say in meta.json which one you chose.)\n\n" + text
 direction = ("\n\nDirection for this task: the change should be one that a careful reviewer and a thorough randomised test campaign would both be "
   "likely to miss: it should depend on a rare combination (two conditions that must coincide, a boundary value of an internal buffer or counter, "
   "a particular order of three or more operations, a particular timing between two goroutines, a fault or kill at one particular step, a caller that "
